@@ -210,7 +210,8 @@ CTX_SENSITIVITY = [
     ("SubstContexts.strict_replaces.cfg", "InvReplacesAllStrict", "UnpackedValue is not substituted (deviation is real on the model)"),
     ("SubstContexts.strict_structure.cfg", "InvStructureStrict", "the structural law sees the same deviation"),
     ("SubstContexts.strict_identity.cfg", "InvIdentityStrict", "a literal of a callable object is re-hashed by substitution"),
-    ("SubstContexts.strict_walk.cfg", "InvWalkStrict", "walk_values misses UnpackedValue.value / TypedDict extra_keys"),
+    ("SubstContexts.strict_walk.cfg", "InvWalkStrict", "walk_values misses UnpackedValue.value"),
+    ("SubstContexts.bug_extrakeys.cfg", "InvWalk", "a walk_values that skips TypedDict extra_keys (the behaviour before fix b707bb5) is rejected"),
     ("SubstContexts.strict_paireqhash.cfg", "InvPairEqHashStrict", "Signature == ignores the parameter order, its hash does not"),
     ("SubstContexts.strict_pairdisc.cfg", "InvPairDiscriminatesStrict", "the same deviation makes == identify two different callable types"),
 ]
@@ -228,9 +229,11 @@ def _corrupted_observation_selftest() -> str:
     base_open = observe_ctx((0, {"kind": "ctx", "a": lst(T), "m": "T->int", "bs": bs}))
     base_closed = observe_ctx((0, {"kind": "ctx", "a": lst(_INT), "m": "T->int", "bs": bs}))
     base_unp = observe_ctx((0, {"kind": "ctx", "a": lst({"k": "unpacked", "t": T}), "m": "T->int", "bs": bs}))
+    tdx = {"k": "tdx", "c": "dict", "items": [{"key": "a", "req": True, "ro": False, "t": _INT}], "extra": [T], "xro": False}
+    base_tdx = observe_ctx((0, {"kind": "ctx", "a": tdx, "m": "T->int", "bs": bs}))
     pair_same = observe_ctx((0, {"kind": "pair", "a": lst(T), "b": lst(T)}))
     pair_diff = observe_ctx((0, {"kind": "pair", "a": lst(T), "b": lst(S)}))
-    for o in (base_open, base_closed, base_unp, pair_same, pair_diff):
+    for o in (base_open, base_closed, base_unp, base_tdx, pair_same, pair_diff):
         if o["kind"] == "raised":
             raise core.MachineryError(f"self-test observation raised: {o}")
     tests = []
@@ -257,6 +260,7 @@ def _corrupted_observation_selftest() -> str:
     add(base_open, "viol:SeparatelyBuiltValuesEqual", eq_fresh=False)
     add(base_open, "viol:ExtractTypevarsAgrees", tv_a=[])
     add(base_open, "viol:ExtractTypevarsAgrees", tv_s=["T"])
+    add(base_tdx, "viol:ExtractTypevarsAgrees", tv_a=[])  # the behaviour before fix b707bb5 is a violation now
     add(base_unp, "dev:unpacked-value-not-substituted")
     add(base_unp, "viol:ReplacesEveryOccurrence", s_a=lst({"k": "unpacked", "t": {"k": "union", "ms": [T, none]}}))  # not the predicted result
     add(pair_same, None)
